@@ -190,6 +190,7 @@ theorem client_head {h : HS P} (hr : ReachR k f W .client h) : [.msg true (hones
   | init => exact List.prefix_refl _
   | msg m _ _ ih => exact ih.trans (onMsg_prefix _ _)
   | ccs _ ih => exact ih.trans (onCCS_prefix _)
+  | skip _ ih => rw [skipCCS_log]; exact ih
   | fail a _ ih => exact ih
 
 def ServerHead (k : Codes) (W : World P) (h : HS P) : Prop :=
@@ -235,6 +236,17 @@ theorem server_head {h : HS P} (hr : ReachR k f W .server h) : ServerHead k W h 
       · unfold HS.onCCS; simp only [hctl]
         exact Or.inl ⟨hl, Or.inr ⟨a, hctl⟩⟩
     · exact Or.inr ⟨ch, hp.trans (onCCS_prefix _)⟩
+  | @skip h hprev ih =>
+    rcases ih with ⟨hl, hctl⟩ | ⟨ch, hp⟩
+    · refine Or.inl ⟨by rw [skipCCS_log]; exact hl, ?_⟩
+      rcases hctl with hctl | ⟨a, hctl⟩
+      · left; unfold HS.skipCCS; split
+        · exact hctl
+        · simp only [hctl]
+      · right; refine ⟨a, ?_⟩; unfold HS.skipCCS; split
+        · exact hctl
+        · simp only [hctl]
+    · exact Or.inr ⟨ch, by rw [skipCCS_log]; exact hp⟩
   | fail a _ ih =>
     rcases ih with ⟨hl, _⟩ | ⟨ch, hp⟩
     · exact Or.inl ⟨hl, Or.inr ⟨a, rfl⟩⟩
